@@ -123,7 +123,7 @@ package main
 //@   ghostset ghostIsAdmin bool = false
 //@   ghostset ghostIsAutomationAdmin bool = false
 //@   ensures err == nil ==> ai.AuthType & requiredAuthType != 0                                             #C06.kind @C06
-//@   ensures err == nil ==> viaCookie(state, ai) || viaTLS(state, r, ai) || viaPassword(state, ai)           #C06.established @C06,C01,C04
+//@   ensures err == nil ==> viaCookie(state, ai) || viaTLS(state, r, ai) || viaPassword(state, ai)           #C06.established @C06,C01,C04,C07
 //@   ensures err == nil && r.Method != "GET" && getOriginOrReferrer(r) != "" && r.Host != "" ==> urlHostOf(getOriginOrReferrer(r)) == r.Host  #C06.csrf @C06
 
 // SHA-256 fingerprint of the SSH encoding of a public key (uninterpreted; getKeyFingerprint computes it)
